@@ -8,7 +8,7 @@ use better_any::{Tid, TidAble};
 use derive_more::{Deref, DerefMut};
 use mahf::{
     components::{boundary, mutation, selection, Block, Branch, Loop, Scope},
-    conditions::{And, Condition, EveryN, LessThanN, Not, OptimumReached, Or, RandomChance},
+    conditions::{common::PartialEqChecker, And, ChangeOf, Condition, EveryN, LessThanN, Not, OptimumReached, Or, RandomChance},
     lens::{common::BestObjectiveValueLens, IdLens, ValueOf},
     logging::Logger,
     problems::KnownOptimumProblem,
@@ -32,6 +32,65 @@ impl CustomState<'_> for Cu {}
 #[derive(Tid, Deref, DerefMut, Clone, Serialize)]
 struct Missing(u32);
 impl CustomState<'_> for Missing {}
+/// a value that changes only on some passes (watched by the change-of trigger)
+#[derive(Tid, Deref, DerefMut, Clone, Serialize, PartialEq)]
+struct Cw(u32);
+impl CustomState<'_> for Cw {}
+
+/// JSON cannot hold non-finite numbers (serde_json turns them into null, which is also how a missing
+/// source is logged), so values are compared in this encoding instead: finite numbers as they are,
+/// non-finite ones as a tagged object.
+fn num(f: f64) -> Value {
+    if f.is_finite() {
+        json!(f)
+    } else {
+        json!({"$nonfinite": format!("{f}")})
+    }
+}
+
+/// CBOR value -> comparison encoding (map keys as strings).
+fn cb2json(v: &ciborium::value::Value) -> Value {
+    use ciborium::value::Value as C;
+    match v {
+        C::Integer(i) => {
+            let i: i128 = (*i).into();
+            json!(i as i64)
+        }
+        C::Float(f) => num(*f),
+        C::Text(t) => json!(t),
+        C::Bool(b) => json!(b),
+        C::Null => Value::Null,
+        C::Array(a) => Value::Array(a.iter().map(cb2json).collect()),
+        C::Map(m) => Value::Object(
+            m.iter()
+                .map(|(k, v)| {
+                    let k = match k {
+                        C::Text(t) => t.clone(),
+                        C::Integer(i) => {
+                            let i: i128 = (*i).into();
+                            i.to_string()
+                        }
+                        other => format!("{other:?}"),
+                    };
+                    (k, cb2json(v))
+                })
+                .collect(),
+        ),
+        C::Bytes(b) => json!(b),
+        C::Tag(_, inner) => cb2json(inner),
+        other => json!(format!("{other:?}")),
+    }
+}
+
+/// what the JSON export can hold of a value in the comparison encoding: non-finite numbers degrade to null
+fn json_view(v: &Value) -> Value {
+    match v {
+        Value::Object(o) if o.contains_key("$nonfinite") => Value::Null,
+        Value::Array(a) => Value::Array(a.iter().map(json_view).collect()),
+        Value::Object(o) => Value::Object(o.iter().map(|(k, v)| (k.clone(), json_view(v))).collect()),
+        other => other.clone(),
+    }
+}
 
 // ---- rules -----------------------------------------------------------------------------------------
 #[derive(Clone, Debug, PartialEq, Eq, Hash)]
@@ -40,6 +99,9 @@ enum Trig {
     Never,
     EveryK(u32),
     Scripted(Vec<bool>, usize), // outcomes, script index
+    /// `EveryN::iterations(k) | ChangeOf(Cw)`: both operands are evaluated at every logger execution, so the
+    /// change-of operand always compares with what it reported last (at most one such rule per rule set)
+    EveryKOrChange(u32),
 }
 #[derive(Clone, Copy, Debug, PartialEq, Eq, Hash)]
 enum Ext {
@@ -58,6 +120,10 @@ struct Shared {
     expected: Vec<Vec<(String, Value)>>,
     logger_executions: u64,
     firing_executions: u64,
+    /// change-of model: last reported value per scope depth at which a logger initialised its triggers
+    last_reported: BTreeMap<usize, Option<u32>>,
+    fired_by_change_only: u64,
+    nonfinite_logged: u64,
 }
 
 #[derive(Clone)]
@@ -104,10 +170,19 @@ impl Serialize for Probe {
     }
 }
 impl Component<P> for Probe {
+    fn init(&self, _p: &P, state: &mut State<P>) -> ExecResult<()> {
+        // the logger behind this probe initialises every trigger in the current scope: a change-of trigger forgets
+        let depth = mv::observe::scope_depth(state);
+        self.shared.lock().unwrap().last_reported.insert(depth, None);
+        Ok(())
+    }
     fn execute(&self, _p: &P, state: &mut State<P>) -> ExecResult<()> {
         let mut g = self.shared.lock().unwrap();
         g.logger_executions += 1;
         let iters = state.try_get_value::<Iterations>().ok();
+        // scopes that were left took their change-of memory with them
+        let depth = mv::observe::scope_depth(state);
+        g.last_reported.retain(|d, _| *d <= depth);
         let mut step: Vec<(String, Value)> = Vec::new();
         let mut fired_any = false;
         for (t, e) in &self.rules {
@@ -116,6 +191,19 @@ impl Component<P> for Probe {
                 Trig::Never => false,
                 Trig::EveryK(k) => iters.map(|i| i % k == 0).unwrap_or(false),
                 Trig::Scripted(o, ix) => o.get(g.script_pos[*ix]).copied().unwrap_or(false),
+                Trig::EveryKOrChange(k) => {
+                    let now = state.try_get_value::<Cw>().ok();
+                    let slot = g.last_reported.iter_mut().next_back().map(|(_, v)| v).expect("a logger was initialised in this or an enclosing scope");
+                    let changed = *slot != now;
+                    if changed {
+                        *slot = now;
+                    }
+                    let periodic = iters.map(|i| i % k == 0).unwrap_or(false);
+                    if changed && !periodic {
+                        g.fired_by_change_only += 1;
+                    }
+                    periodic | changed
+                }
             };
             if !fire {
                 continue;
@@ -130,9 +218,12 @@ impl Component<P> for Probe {
                 Ext::Evaluations => json!(state.try_get_value::<Evaluations>().ok()),
                 Ext::CustomValueOf | Ext::CustomId => json!(state.try_get_value::<Cu>().ok()),
                 Ext::MissingState => Value::Null,
-                Ext::BestObjective => json!(state.best_objective_value().map(|o| o.value())),
+                Ext::BestObjective => state.best_objective_value().map(|o| num(o.value())).unwrap_or(Value::Null),
                 Ext::BestSolution => json!(state.best_individual().map(|b| b.solution().clone())),
             };
+            if v.get("$nonfinite").is_some() {
+                g.nonfinite_logged += 1;
+            }
             step.push((name, v));
         }
         if fired_any {
@@ -148,16 +239,20 @@ impl Component<P> for Probe {
 }
 
 #[derive(Clone, Serialize)]
-struct Bump;
+struct Bump {
+    /// the best individual is only improved once the counter has passed this value
+    best_from: u32,
+}
 impl Component<P> for Bump {
     fn execute(&self, _p: &P, state: &mut State<P>) -> ExecResult<()> {
         *state.try_borrow_value_mut::<Cu>()? += 3;
+        let c = state.get_value::<Cu>();
+        state.set_value::<Cw>(c / 9);
         if let Ok(mut e) = state.try_borrow_value_mut::<Evaluations>() {
             *e += 2;
         }
         // the best individual changes every other pass
-        let c = state.get_value::<Cu>();
-        if c % 2 == 0 {
+        if c % 2 == 0 && c >= self.best_from {
             if let Ok(mut b) = state.try_borrow_mut::<BestIndividual<P>>() {
                 b.update(&Individual::new(vec![0.0], (100.0 - c as f64).try_into().unwrap()));
             }
@@ -177,19 +272,22 @@ struct LogCase {
     with_best: bool,
     /// register consecutive rules that share a stateless trigger through `with_many`, after a `clear()` of junk rules
     via_with_many: bool,
+    /// the run starts with a best individual whose objective value is +inf (a penalised infeasible solution) and keeps it for a while
+    inf_best: bool,
 }
 
 fn run_log_case(rep: &Reporter, c: &LogCase, scratch: &str, export: bool) {
     let n_scripts = c.rules.iter().filter_map(|r| if let Trig::Scripted(_, ix) = &r.0 { Some(ix + 1) } else { None }).max().unwrap_or(0);
     let shared = Arc::new(Mutex::new(Shared { script_pos: vec![0; n_scripts.max(1)], ..Default::default() }));
     let probe = || -> Box<dyn Component<P>> { Box::new(Probe { rules: c.rules.clone(), shared: shared.clone() }) };
-    let mut body: Vec<Box<dyn Component<P>>> = vec![Box::new(Bump)];
+    let bump = || -> Box<dyn Component<P>> { Box::new(Bump { best_from: if c.inf_best { 12 } else { 0 } }) };
+    let mut body: Vec<Box<dyn Component<P>>> = vec![bump()];
     if c.logger_in_loop {
         body.push(probe());
         body.push(Logger::new());
     }
     if let Some(m) = c.nested_scope_loop {
-        body.push(Scope::new(vec![Loop::new(LessThanN::iterations(m), vec![Box::new(Bump) as Box<dyn Component<P>>, probe(), Logger::new()])]));
+        body.push(Scope::new(vec![Loop::new(LessThanN::iterations(m), vec![bump(), probe(), Logger::new()])]));
     }
     if c.two_loggers_in_loop {
         body.push(probe());
@@ -205,13 +303,19 @@ fn run_log_case(rep: &Reporter, c: &LogCase, scratch: &str, export: bool) {
     let rules = c.rules.clone();
     let sh = shared.clone();
     let with_best = c.with_best;
+    let inf_best = c.inf_best;
     let via_with_many = c.via_with_many;
     let res = catch(|| {
         cfg.optimize_with(&problem, move |state| {
             state.insert(Cu(1));
+            state.insert(Cw(0));
             state.insert(Evaluations(0));
             if with_best {
-                state.insert(BestIndividual::<P>::new());
+                let mut b = BestIndividual::<P>::new();
+                if inf_best {
+                    b.update(&Individual::new(vec![0.5], f64::INFINITY.try_into().unwrap()));
+                }
+                state.insert(b);
             }
             state.configure_log(|cfgl| {
                 let ext_of = |e: &Ext| -> Box<dyn mahf::logging::extractor::EntryExtractor<P>> {
@@ -233,7 +337,7 @@ fn run_log_case(rep: &Reporter, c: &LogCase, scratch: &str, export: bool) {
                     let mut i = 0;
                     while i < rules.len() {
                         let (t, _) = &rules[i];
-                        let stateless = !matches!(t, Trig::Scripted(..));
+                        let stateless = !matches!(t, Trig::Scripted(..) | Trig::EveryKOrChange(_));
                         let mut j = i + 1;
                         while stateless && j < rules.len() && rules[j].0 == *t {
                             j += 1;
@@ -243,6 +347,7 @@ fn run_log_case(rep: &Reporter, c: &LogCase, scratch: &str, export: bool) {
                             Trig::Never => !EveryN::iterations(1),
                             Trig::EveryK(k) => EveryN::iterations(*k),
                             Trig::Scripted(o, ix) => Box::new(ScriptTrig { outcomes: o.clone(), ix: *ix, shared: sh.clone() }),
+                            Trig::EveryKOrChange(k) => EveryN::iterations(*k) | ChangeOf::new(PartialEqChecker::new(), ValueOf::<Cw>::new()),
                         };
                         cfgl.with_many(trig, rules[i..j].iter().map(|r| ext_of(&r.1)).collect::<Vec<_>>());
                         i = j;
@@ -255,6 +360,7 @@ fn run_log_case(rep: &Reporter, c: &LogCase, scratch: &str, export: bool) {
                         Trig::Never => !EveryN::iterations(1),
                         Trig::EveryK(k) => EveryN::iterations(*k),
                         Trig::Scripted(o, ix) => Box::new(ScriptTrig { outcomes: o.clone(), ix: *ix, shared: sh.clone() }),
+                        Trig::EveryKOrChange(k) => EveryN::iterations(*k) | ChangeOf::new(PartialEqChecker::new(), ValueOf::<Cw>::new()),
                     };
                     match e {
                         Ext::Iterations => cfgl.with(trig, ValueOf::<Iterations>::entry()),
@@ -275,7 +381,9 @@ fn run_log_case(rep: &Reporter, c: &LogCase, scratch: &str, export: bool) {
     let g = shared.lock().unwrap();
     rep.count("logger_executions_observed", g.logger_executions);
     rep.count("logger_executions_with_a_firing_rule", g.firing_executions);
-    let desc = || json!({"rules": format!("{:?}", c.rules), "outer_iterations": c.n_outer, "logger_in_loop": c.logger_in_loop, "second_logger_in_loop": c.two_loggers_in_loop, "logger_after_loop": c.logger_after_loop, "nested_scope_loop_iterations": c.nested_scope_loop, "best_individual_state": c.with_best, "registered_through_clear_and_with_many": c.via_with_many});
+    rep.count("steps_fired_only_by_the_change_of_operand", g.fired_by_change_only);
+    rep.count("infinite_objective_values_logged", g.nonfinite_logged);
+    let desc = || json!({"rules": format!("{:?}", c.rules), "outer_iterations": c.n_outer, "logger_in_loop": c.logger_in_loop, "second_logger_in_loop": c.two_loggers_in_loop, "logger_after_loop": c.logger_after_loop, "nested_scope_loop_iterations": c.nested_scope_loop, "best_individual_state": c.with_best, "registered_through_clear_and_with_many": c.via_with_many, "starts_with_an_infinite_best": c.inf_best});
     let state = match res {
         Ok(Ok(s)) => s,
         other => {
@@ -283,7 +391,8 @@ fn run_log_case(rep: &Reporter, c: &LogCase, scratch: &str, export: bool) {
             return;
         }
     };
-    let actual = serde_json::to_value(&*state.log()).unwrap();
+    // serialised through CBOR values rather than JSON so that +inf and "missing" stay apart
+    let actual = cb2json(&ciborium::value::Value::serialized(&*state.log()).expect("log serialises"));
     let actual_steps: Vec<Vec<(String, Value)>> = actual
         .as_array()
         .unwrap()
@@ -316,6 +425,7 @@ fn run_log_case(rep: &Reporter, c: &LogCase, scratch: &str, export: bool) {
     }
     // exports decode to exactly that sequence (per step as a name -> value map)
     let want: Vec<BTreeMap<String, Value>> = g.expected.iter().map(|s| s.iter().cloned().collect()).collect();
+    let want_json: Vec<BTreeMap<String, Value>> = want.iter().map(|s| s.iter().map(|(k, v)| (k.clone(), json_view(v))).collect()).collect();
     let jpath = format!("{scratch}/log_{}.json", hash_of(&format!("{c:?}")));
     let cpath = format!("{scratch}/log_{}.cbor", hash_of(&format!("{c:?}")));
     let decode = |v: &Value| -> Vec<BTreeMap<String, Value>> {
@@ -342,7 +452,7 @@ fn run_log_case(rep: &Reporter, c: &LogCase, scratch: &str, export: bool) {
     rep.count("log_exports_decoded", 2);
     match state.log().to_json(&jpath).map_err(|e| e.to_string()).and_then(|_| std::fs::read_to_string(&jpath).map_err(|e| e.to_string())).and_then(|t| serde_json::from_str::<Value>(&t).map_err(|e| e.to_string())) {
         Ok(v) => {
-            if !num_eq(&decode(&v), &want) {
+            if !num_eq(&decode(&v), &want_json) {
                 rep.violation("export:json-does-not-decode-to-the-log", json!({"case": desc(), "decoded_steps": decode(&v).len(), "expected_steps": want.len(), "decoded_first": decode(&v).first(), "expected_first": want.first()}));
             }
         }
@@ -354,7 +464,7 @@ fn run_log_case(rep: &Reporter, c: &LogCase, scratch: &str, export: bool) {
         .map_err(|e| e.to_string())
         .and_then(|_| std::fs::File::open(&cpath).map_err(|e| e.to_string()))
         .and_then(|f| ciborium::de::from_reader::<ciborium::value::Value, _>(std::io::BufReader::new(f)).map_err(|e| e.to_string()))
-        .and_then(|v| serde_json::to_value(&v).map_err(|e| e.to_string()))
+        .map(|v| cb2json(&v))
     {
         Ok(v) => {
             if !num_eq(&decode(&v), &want) {
@@ -374,13 +484,20 @@ fn log_part(rep: &Reporter, scratch: &str) {
     let trigs = |ix: &mut usize| -> Vec<Trig> {
         let s = Trig::Scripted(vec![true, false, false, true, true, false, true], *ix);
         *ix += 1;
-        vec![Trig::Always, Trig::Never, Trig::EveryK(2), Trig::EveryK(3), s]
+        vec![Trig::Always, Trig::Never, Trig::EveryK(2), Trig::EveryK(3), s, Trig::EveryKOrChange(4)]
     };
     let mut cases: Vec<LogCase> = Vec::new();
     for e1 in exts {
         let mut ix = 0;
         for t1 in trigs(&mut ix) {
-            cases.push(LogCase { rules: vec![(t1.clone(), e1)], n_outer: 7, logger_in_loop: true, logger_after_loop: true, nested_scope_loop: None, two_loggers_in_loop: false, with_best: true, via_with_many: false });
+            cases.push(LogCase { rules: vec![(t1.clone(), e1)], n_outer: 7, logger_in_loop: true, logger_after_loop: true, nested_scope_loop: None, two_loggers_in_loop: false, with_best: true, via_with_many: false, inf_best: false });
+            if matches!(e1, Ext::BestObjective | Ext::BestSolution) {
+                cases.push(LogCase { rules: vec![(t1.clone(), e1)], n_outer: 7, logger_in_loop: true, logger_after_loop: true, nested_scope_loop: Some(2), two_loggers_in_loop: false, with_best: true, via_with_many: false, inf_best: true });
+            }
+            if matches!(t1, Trig::EveryKOrChange(_)) {
+                // the stateful trigger with loggers at both levels and twice in the loop
+                cases.push(LogCase { rules: vec![(t1.clone(), e1)], n_outer: 9, logger_in_loop: true, logger_after_loop: true, nested_scope_loop: Some(3), two_loggers_in_loop: true, with_best: true, via_with_many: false, inf_best: false });
+            }
             for e2 in exts {
                 let mut ix2 = 1;
                 for t2 in trigs(&mut ix2) {
@@ -389,7 +506,10 @@ fn log_part(rep: &Reporter, scratch: &str) {
                         t => t.clone(),
                     };
                     let same = t1c == t2;
-                    cases.push(LogCase { rules: vec![(t1c, e1), (t2, e2)], n_outer: 6, logger_in_loop: true, logger_after_loop: false, nested_scope_loop: None, two_loggers_in_loop: false, with_best: e1 != Ext::MissingState, via_with_many: same && e1 != e2 });
+                    if same && matches!(t2, Trig::EveryKOrChange(_)) {
+                        continue; // at most one change-of rule per rule set
+                    }
+                    cases.push(LogCase { rules: vec![(t1c, e1), (t2, e2)], n_outer: 6, logger_in_loop: true, logger_after_loop: false, nested_scope_loop: None, two_loggers_in_loop: false, with_best: e1 != Ext::MissingState, via_with_many: same && e1 != e2, inf_best: e1 == Ext::BestObjective && e2 == Ext::Iterations });
                 }
             }
         }
@@ -399,10 +519,15 @@ fn log_part(rep: &Reporter, scratch: &str) {
     for _ in 0..rep.tier.pick(5_000, 600_000) {
         let nr = rng.usize(5);
         let mut ix = 0;
+        let mut change_rule_used = false;
         let rules: Vec<(Trig, Ext)> = (0..nr)
             .map(|_| {
-                let t = match rng.below(5) {
-                    0 => Trig::Always,
+                let t = match rng.below(6) {
+                    5 if !change_rule_used => {
+                        change_rule_used = true;
+                        Trig::EveryKOrChange(1 + rng.below(5) as u32)
+                    }
+                    0 | 5 => Trig::Always,
                     1 => Trig::Never,
                     2 => Trig::EveryK(1 + rng.below(4) as u32),
                     3 => Trig::EveryK(2),
@@ -424,6 +549,7 @@ fn log_part(rep: &Reporter, scratch: &str) {
             two_loggers_in_loop: rng.chance(0.25),
             with_best: rng.chance(0.7),
             via_with_many: rng.chance(0.3),
+            inf_best: rng.chance(0.25),
         });
     }
     for (k, c) in cases.iter().enumerate() {
@@ -784,8 +910,8 @@ impl<'r> TemplateVisitor for TV<'r> {
 
 fn main() {
     let rep = Reporter::from_args("C15");
-    rep.rule("(1) log: rule sets over triggers {always, never, every-k, scripted sequence} x extractors {iterations, evaluations, custom state via ValueOf and via IdLens (same name), missing state, best objective} - all single rules and all pairs systematically, random sets of 0..4 rules - with loggers inside a loop (once or twice), after it, and in a loop nested in a scope, 0..12 iterations; an oracle probe directly in front of every logger computes the step that must be appended (one step per execution with a firing rule, entries in rule order, first rule wins a repeated name, explicit null for a missing source, iteration count first unless a rule already extracted it, nothing when nothing fires); the in-memory log must equal that sequence and (every third case) the JSON and CBOR exports must decode to it; (2) configuration export: families of a random configuration tree plus all its single-parameter and single-structure edits must serialise (RON) to pairwise different texts, a clone identically, names and parameter values in pre-order; every template x parameter set x n serialises, pairwise differently, with its parameters. distinct_nontrivial = distinct log cases + distinct base trees + distinct template cells");
-    rep.assume("logger placements without a visible iteration counter are not exercised; within-step order is not representable in the compressed export and is compared as a map there");
+    rep.rule("(1) log: rule sets over triggers {always, never, every-k, scripted sequence, every-k | change-of(a slowly changing value) - a stateful operand behind another operand, modelled per scope in which a logger initialised it} x extractors {iterations, evaluations, custom state via ValueOf and via IdLens (same name), missing state, best objective - also while it is +inf -, best solution} - all single rules and all pairs systematically, random sets of 0..4 rules - with loggers inside a loop (once or twice), after it, and in a loop nested in a scope, 0..12 iterations; an oracle probe directly in front of every logger computes the step that must be appended (one step per execution with a firing rule, entries in rule order, first rule wins a repeated name, explicit null for a missing source, iteration count first unless a rule already extracted it, nothing when nothing fires); the in-memory log must equal that sequence and (every third case) the JSON and CBOR exports must decode to it; (2) configuration export: families of a random configuration tree plus all its single-parameter and single-structure edits must serialise (RON) to pairwise different texts, a clone identically, names and parameter values in pre-order; every template x parameter set x n serialises, pairwise differently, with its parameters. distinct_nontrivial = distinct log cases + distinct base trees + distinct template cells");
+    rep.assume("logger placements without a visible iteration counter are not exercised; within-step order is not representable in the compressed export and is compared as a map there; values are compared as CBOR values (so +inf and an explicit null stay apart) except in the JSON export, whose format cannot hold non-finite numbers (null there is not judged); at most one change-of rule per rule set");
     let scratch = std::env::var("VERIF_SCRATCH").unwrap_or_else(|_| format!("{}/target/scratch/manual", mv::verif_root().display()));
     let _ = std::fs::create_dir_all(&scratch);
     log_part(&rep, &scratch);
